@@ -199,7 +199,7 @@ CHECKS["C15"] = dict(
           "non-trivial = >= 3 goroutines issuing >= 3 different operation kinds."),
     assumptions=["the race detector reports only races the executed schedule exposes through happens-before: a miss is possible, an invented race is not",
                  "known findings are listed per function pair; a race between any other pair is a violation"],
-    parts=[P("race", "seq", "TestC15", dict(checks=96, shards=16, timeout=900, shrinktime="15s"), dict(checks=1600, shards=16, timeout=3400, shrinktime="30s"), race=True)],
+    parts=[P("race", "seq", "TestC15", dict(checks=96, shards=16, timeout=900, shrinktime="15s"), dict(checks=8000, shards=16, timeout=3400, shrinktime="30s"), race=True)],
 )
 
 _E4_DIRS = ["internal/model/core", "internal/model/sequence", "internal/usecase/core", "internal/usecase/store", "internal/usecase/transaction",
@@ -263,15 +263,15 @@ _E4_POOL_DIRS = ["internal/model/core", "internal/utils/wpool"]
 CHECKS["C16"] = dict(
     level="exploration",
     rule=("the REAL worker pool source (rewritten to the owned scheduler: its goroutines, three mutexes, two wait groups, channel selects and the SendDuration timer are all scheduler decisions). "
-          "part 'enum': 9 catalogue programs (1-2 workers; senders of no-op jobs, gate jobs that keep workers busy until the harness opens the gate, jobs waiting for their context; Stop after quiescence, Stop concurrent with senders, Run/Stop/Run cycles, Stop||Stop and Send||Run||Stop) - all schedules with <= 1 (quick) / <= 2 (thorough) forced preemptions. "
+          "part 'enum': 12 catalogue programs (1-2 workers; senders of no-op jobs, gate jobs that keep workers busy until the harness opens the gate, jobs waiting for their context; callers whose own context is cancelled before Send or right after it returned; Stop after quiescence, Stop concurrent with senders, Run/Stop/Run cycles, a second generation after a Run/Stop cycle that ended with a busy flusher, Stop||Stop and Send||Run||Stop) - all schedules with <= 1 (quick) / <= 3 (thorough) forced preemptions. "
           "part 'rand': rapid-generated programs (1-3 senders x 1-6 sends, optional concurrent Stop, optional second Run cycle, and an 'any order' profile of arbitrary Run/Stop/Send actors) x random-walk tapes (switch probability 2-30%, timers fireable at any step) or 0-4 forced preemptions. "
           "Oracle: per-job execution counters and logical timestamps - every job handed to Send entirely while the pool was running is executed exactly once by the time the system is quiescent (no further Send, no Stop); never twice; every Send returns although all workers stay gate-blocked (else deadlock verdict); Stop returns only after started jobs finished; no job starts after Stop returned; no panic, no deadlock. "
           "non-trivial = all workers were kept busy by gate jobs and more jobs were sent than the channel holds (deferred path), or (any-order profile) >= 2 Run/Stop calls."),
     assumptions=_E4_ASSUME[:2] + ["quiescence is exact: the harness blocks until no managed goroutine can run and no virtual timer is pending"],
     parts=[
         P("enum", "det", "TestC16Enum", dict(checks=1, shards=8, split=False, timeout=900, env={"VERIF_POOL_BOUND": "1"}),
-          dict(checks=1, shards=16, split=False, timeout=3400, env={"VERIF_POOL_BOUND": "2"}), rapid=False, rewrite=_E4_DIRS),
-        P("rand", "det", "TestC16Rand", dict(checks=16000, shards=8, timeout=900), dict(checks=1000000, shards=16, timeout=3400), rewrite=_E4_DIRS),
+          dict(checks=1, shards=16, split=False, timeout=3400, env={"VERIF_POOL_BOUND": "3"}), rapid=False, rewrite=_E4_DIRS),
+        P("rand", "det", "TestC16Rand", dict(checks=16000, shards=8, timeout=900), dict(checks=4000000, shards=16, timeout=3400), rewrite=_E4_DIRS),
     ],
 )
 
